@@ -62,6 +62,7 @@ pub fn dispatch(req: &Value) -> Value {
         "copyright_lookup" => op_copyright_lookup(req),
         "accessor" => crate::gen_accessors::op_accessor(req),
         "control_find" => op_control_find(req),
+        "wrap_sort" => op_wrap_sort(req),
         "pgp" => match debian_control::pgp::strip_pgp_signature(&s(req, "s")) {
             Ok((p, sig)) => json!({"ok": true, "payload": p, "sig": sig}),
             Err(e) => json!({"ok": false, "err": format!("{:?}", e)}),
@@ -729,5 +730,66 @@ fn op_control_find(req: &Value) -> Value {
             else { let x = c.add_binary(&name); returned = json!({"id": x.as_deb822().get("X-Id"), "name": x.name()}); }
         }
         json!({"ok": true, "before": before, "after": snap(&c), "returned": returned})
+    })
+}
+
+
+/// C07: reformat a document / paragraph / control file with the given settings, twice
+fn op_wrap_sort(req: &Value) -> Value {
+    use deb822_lossless::{Deb822, Indentation, Paragraph};
+    use deb822_lossless::lossless::Entry;
+    let text = s(req, "s");
+    let level = s(req, "level");
+    let indent = match req["indent"].as_u64() { Some(0) | None => Indentation::FieldNameLength, Some(n) => Indentation::Spaces(n as u32) };
+    let immediate = req["immediate"].as_bool().unwrap_or(false);
+    let maxlen = req["maxlen"].as_u64().map(|n| n as usize);
+    let sort_entries = req["sort_entries"].as_str().map(|x| x.to_string());
+    let sort_paragraphs = req["sort_paragraphs"].as_str().map(|x| x.to_string());
+    let formatter = req["formatter"].as_str().map(|x| x.to_string());
+    guarded(move || {
+        let fmt_identity = |_k: &str, v: &str| -> String { v.to_string() };
+        let fmt_comma = |_k: &str, v: &str| -> String { v.split(',').map(|x| x.trim().to_string()).collect::<Vec<_>>().join(",\n") };
+        let by_key = |a: &Entry, b: &Entry| -> std::cmp::Ordering { a.key().cmp(&b.key()) };
+        let by_first = |a: &Paragraph, b: &Paragraph| -> std::cmp::Ordering { a.keys().next().cmp(&b.keys().next()) };
+        let fmt: Option<&dyn Fn(&str, &str) -> String> = match formatter.as_deref() { Some("identity") => Some(&fmt_identity), Some("comma-lines") => Some(&fmt_comma), _ => None };
+        let se: Option<&dyn Fn(&Entry, &Entry) -> std::cmp::Ordering> = if sort_entries.is_some() { Some(&by_key) } else { None };
+        let sp: Option<&dyn Fn(&Paragraph, &Paragraph) -> std::cmp::Ordering> = if sort_paragraphs.is_some() { Some(&by_first) } else { None };
+        let wrap_para = |p: &Paragraph| -> Paragraph { p.wrap_and_sort(indent, immediate, maxlen, se, fmt) };
+        let items = |d: &Deb822| -> Value { paras_lossless(d) };
+        let pass = |input: &str| -> Result<(String, Value), String> {
+            match level.as_str() {
+                "doc" => {
+                    let d: Deb822 = input.parse().map_err(|e: deb822_lossless::ParseError| e.to_string())?;
+                    let r = d.wrap_and_sort(sp, Some(&wrap_para));
+                    Ok((r.to_string(), items(&r)))
+                }
+                "doc-plain" => {
+                    let d: Deb822 = input.parse().map_err(|e: deb822_lossless::ParseError| e.to_string())?;
+                    let r = d.wrap_and_sort(sp, None);
+                    Ok((r.to_string(), items(&r)))
+                }
+                "paragraph" => {
+                    let p: Paragraph = input.parse().map_err(|e: deb822_lossless::ParseError| e.to_string())?;
+                    let r = wrap_para(&p);
+                    Ok((r.to_string(), json!([r.items().map(|(k, v)| json!([k, v])).collect::<Vec<_>>()])))
+                }
+                "control" => {
+                    let mut c: debian_control::lossless::control::Control = input.parse().map_err(|e: deb822_lossless::ParseError| e.to_string())?;
+                    c.wrap_and_sort(indent, immediate, maxlen);
+                    Ok((c.to_string(), items(c.as_deb822())))
+                }
+                other => Err(format!("unknown level {}", other)),
+            }
+        };
+        let (t1, live1) = match pass(&text) { Ok(x) => x, Err(e) => return json!({"ok": false, "err": e}) };
+        let re1 = match t1.parse::<Deb822>() { Ok(d) => json!({"ok": true, "paras": items(&d)}), Err(e) => json!({"ok": false, "err": e.to_string()}) };
+        let second = if level == "paragraph" {
+            // the second pass is applied to the returned paragraph itself (re-parsing a lone paragraph would move leading comments to the document)
+            match catch_unwind(AssertUnwindSafe(|| { let p: Paragraph = text.parse().unwrap(); let r = wrap_para(&p); wrap_para(&r).to_string() })) { Ok(t2) => json!({"ok": true, "text": t2}), Err(_) => json!({"ok": false, "err": "panic in the second pass"}) }
+        } else {
+            match catch_unwind(AssertUnwindSafe(|| pass(&t1))) { Ok(Ok((t2, _))) => json!({"ok": true, "text": t2}), Ok(Err(e)) => json!({"ok": false, "err": e}), Err(_) => json!({"ok": false, "err": "panic in the second pass"}) }
+        };
+        let input_paras = match text.parse::<Deb822>() { Ok(d) => items(&d), Err(_) => Value::Null };
+        json!({"ok": true, "text1": t1, "live1": live1, "reparse1": re1, "second": second, "input": input_paras})
     })
 }
